@@ -34,6 +34,18 @@ class Unsupported(Exception):
   pass
 
 
+class UndecidedComparison(Unsupported):
+  """A comparison of polynomial operands whose sign is not the same over the whole box (a switch on data).  Carries the
+  difference a - b (PolyArr) and the undecided element indices so that a caller can ask the solver for states on either
+  side of / on the switching surface and replay the real code there."""
+
+  def __init__(self, msg, name, diff, und):
+    super().__init__(msg)
+    self.cmp_name = name
+    self.diff = diff
+    self.und = und
+
+
 OPTIONS = {}      # 'div0_to_nan': x / 0-constant yields the constant NaN (missing value) instead of aborting
 
 
@@ -472,8 +484,8 @@ def _poly_compare(self, name, other):
     raise Unsupported(f'{name} on polynomial operands')
   und = ~(yes | no)
   if und.any():
-    raise Unsupported(f'comparison {name} on polynomial operands is not decided by interval arithmetic for {int(und.sum())} of {und.size} elements '
-                      '(a kink inside the box: use the term domain)')
+    raise UndecidedComparison(f'comparison {name} on polynomial operands is not decided by interval arithmetic for {int(und.sum())} of {und.size} elements '
+                              '(a kink inside the box: use the term domain)', name, d, np.flatnonzero(np.asarray(und).reshape(-1)))
   return np.asarray(yes)
 
 
